@@ -441,6 +441,4 @@ class TreeMod(roundtrip.RTMod):
                 return out
         if raw0 is not None and raw0[0] == "abs" and raw0[1] == "siter" and "Iterator" in c and m in ("filter_map", "filter", "find", "find_map", "any", "all", "position", "skip_while", "take_while", "count", "last", "nth", "enumerate"):
             return rowanmodel.RowanMod.adapter(self, I, st, m, list(raw0[2][raw0[3]:]), args, n)
-        if raw0 is not None and raw0[0] == "abs" and raw0[1] == "svec" and m == "sort_by":
-            return None
         return super().intrinsic(I, c, args, st, n)
